@@ -469,3 +469,11 @@ _targets_c05_core = targets
 
 def targets():      # noqa: F811
     return _targets_c05_core() + [target_duplicate_average()]
+
+
+_targets_before_observers = targets
+
+
+def targets():      # noqa: F811
+    from . import purity
+    return _targets_before_observers() + [purity.target_observers(["data/data_set"], "DataSet observers keep no state")]
